@@ -10,7 +10,7 @@
 From Coq Require Import ZArith List Bool.
 From DV Require Import Model.PyPrims Model.Tree Model.Heap Model.HeapOps Model.C15Prims Model.MutPrims Gen.Mutators
      Model.C03GenInst Proofs.C03GenPrims Proofs.C03GenNode Proofs.C03GenHeq Proofs.C03GenRemove Proofs.C03GenEdge
-     Proofs.C03GenTree Proofs.C03GenSu Proofs.C03GenReseed Proofs.C03GenPrune Proofs.C03GenMisc Proofs.C03GenPoly Proofs.C03GenEnc Proofs.C03GenOrder Proofs.C03GenResolve.
+     Proofs.C03GenTree Proofs.C03GenSu Proofs.C03GenReseed Proofs.C03GenPrune Proofs.C03GenMisc Proofs.C03GenPoly Proofs.C03GenEnc Proofs.C03GenOrder Proofs.C03GenResolve Model.C03Split Proofs.C03GenSplit Proofs.C03GenShuffle.
 From DV Require Import Model.C01GenPrims Gen.Bipartition Proofs.C03Base.
 Import ListNotations.
 Open Scope Z_scope.
@@ -136,7 +136,7 @@ Qed.
 Print Assumptions collapse_basal_bifurcation_refines.
 
 Theorem to_outgroup_position_refines : forall (og : Z) (ub su : bool) (h : heap),
-  to_hres (Tree_to_outgroup_position HG og ub su h) = to_outgroup_position og ub su h.
+  to_hres (Tree_to_outgroup_position HG og ub su h) = to_outgroup_position_r og ub su h.
 Proof. exact gen_to_outgroup_position. Qed.
 Print Assumptions to_outgroup_position_refines.
 
@@ -189,7 +189,7 @@ Print Assumptions reseed_at_refines.
    is exact: the list is built completely before anything is removed).  Hypotheses: the generated fuel
    is at least HeapOps.v's, and HeapOps.v itself does not give up (result <> HFuel).
    prune_leaves_without_taxa / prune_nodes / prune_taxa / retain_taxa are related to HeapOps.run_op_v for
-   the CURRENT source, v_now = {v_seed_guard := true; v_prune_nodes_tail := true} (Proofs/C03GenPrune.v):
+   the CURRENT source, v_now = {v_seed_guard := true; v_prune_nodes_tail := true; v_outgroup_first := true} (Proofs/C03GenPrune.v):
    HeapOps's function of the unrepaired source with AttributeError relabelled to OtherErr
    (SeedNodeDeletionException when the node to remove is the seed) and, for
    prune_nodes(prune_leaves_without_taxa=False), suppress_unifurcations / update_bipartitions appended. ---- *)
@@ -268,7 +268,7 @@ Proof. exact gen_randomly_rotate. Qed.
 Print Assumptions randomly_rotate_refines.
 
 Theorem randomly_reorient_refines : forall (pick : nat) (perms : list (list nat)) (ub : bool) (h : heap),
-  to_hres (Tree_randomly_reorient HG ([pick] :: perms) ub h) = randomly_reorient pick perms ub h.
+  to_hres (Tree_randomly_reorient HG ([pick] :: perms) ub h) = randomly_reorient_r pick perms ub h.
 Proof. exact gen_randomly_reorient. Qed.
 Print Assumptions randomly_reorient_refines.
 
@@ -324,3 +324,48 @@ Theorem encode_bipartitions_op_is_generated_structure :
     exists h', x_encode_bipartitions HG su cb h = MOk tt h' /\ WFt h' (ge_tree g) /\ next h' = next h.
 Proof. exact gen_encode_op_structure. Qed.
 Print Assumptions encode_bipartitions_op_is_generated_structure.
+
+(* ---- Tree.reroot_at_midpoint: its POINTER BLOCK (the statements that change the object graph through
+   local variables: the edge split) is compiled statement by statement from the source, whatever their
+   number and order, as Tree_reroot_at_midpoint__edge_split (parameters: the variables the block reads, in
+   order of first use: tail, head, length of head's edge, length of the new node's edge; result: the
+   variable it assigns).  On EVERY heap it is Model/C03Split.v mid_split - literally the six steps of
+   HeapOps.reroot_at_midpoint's MidEdge branch - and returns the constructed node, id `next h`. ---- *)
+Theorem midpoint_split_refines : forall (ot c : Z) (hl tl : option Z) (h : heap),
+  Tree_reroot_at_midpoint__edge_split HG ot c hl tl h = lift (next h) (mid_split ot c hl tl h).
+Proof. exact gen_mid_split. Qed.
+Print Assumptions midpoint_split_refines.
+
+(* HeapOps.reroot_at_midpoint (the op of the history language: op_wf, history_wf, the correspondence)
+   IS the program whose edge split is the generated block (the search for the edge stays hand-modelled) *)
+Theorem reroot_at_midpoint_generated_split : forall (tx1 tx2 : Z) (ub su cb : bool) (h : heap),
+  reroot_at_midpoint_with (Tree_reroot_at_midpoint__edge_split HG) tx1 tx2 ub su cb h
+  = reroot_at_midpoint tx1 tx2 ub su cb h.
+Proof. exact reroot_at_midpoint_gen_split. Qed.
+Print Assumptions reroot_at_midpoint_generated_split.
+
+(* non-vacuity: ((A:3,B:2):2,(C:2,D:4):2), the edge above node 4 split into 1 + 1 *)
+Theorem midpoint_split_example :
+  exists h', Tree_reroot_at_midpoint__edge_split HG 0 4 (Some 1) (Some 1) (of_tree exs_tree None) = MOk 7 h' /\
+    abs h' = Some (T 0 None None None
+      [T 1 None None (Some 2) [T 2 (Some 10) None (Some 3) []; T 3 (Some 11) None (Some 2) []];
+       T 7 None None (Some 1) [T 4 None None (Some 1) [T 5 (Some 12) None (Some 2) []; T 6 (Some 13) None (Some 4) []]]]).
+Proof. exact gen_mid_split_example. Qed.
+Print Assumptions midpoint_split_example.
+
+(* ---- Tree.shuffle_taxa compiled from the source.  `x.taxon = v` is not a field of the interface record:
+   the generated definition is abstracted over the writer, instantiated here with Heap.set_taxon.  The
+   scripted rng is one list of draws, one singleton [i] per rng.randrange call (sing).  Hypothesis: the
+   traversal reaches no node twice - true of every well-formed heap (second theorem); on a heap in which a
+   node hangs under two parents (what add_child of an attached node leaves behind, F18) the source trips
+   `assert len(current_node_taxon_map) == len(node_taxa)`, which HeapOps.shuffle_taxa does not model. ---- *)
+Theorem shuffle_taxa_refines : forall (ii : bool) (draws : list nat) (h : heap),
+  (forall t, abs_at h (seed h) = Some t -> NoDup (if ii then pre_ids t else leaf_ids t)) ->
+  to_hres (Tree_shuffle_taxa HG set_taxon ii (sing draws) h) = shuffle_taxa ii draws h.
+Proof. exact gen_shuffle_taxa. Qed.
+Print Assumptions shuffle_taxa_refines.
+
+Theorem shuffle_taxa_refines_wf : forall (ii : bool) (draws : list nat) (h : heap),
+  WF h -> to_hres (Tree_shuffle_taxa HG set_taxon ii (sing draws) h) = shuffle_taxa ii draws h.
+Proof. exact gen_shuffle_taxa_wf. Qed.
+Print Assumptions shuffle_taxa_refines_wf.
